@@ -1,5 +1,7 @@
 import BlugeProofs.C07.Witness
 import BlugeProofs.C07.PlanSeg
+import BlugeProofs.C07.PhrasePaths
+import BlugeGen.C07
 /-! # C07 — every query returns exactly the documents its meaning selects
 
 Property theorems (helper lemmas live in `BlugeProofs/C07/*.lean`). The model is `Bluge.Search`
@@ -103,6 +105,38 @@ theorem phrase_is_iter {ι : Type} {cs : Step ι} {RelK : List Nat → ι → Ph
     IsIter (PhraseS.step cs fuel) (PhraseRel RelK B Lk ok) L :=
   phrase_is_iter_aux hK hL fuel hfuel
 
+/-- **findPhrasePaths_sound_complete**: the path search of search_phrase.go, as transcribed in `findPaths`
+(recursion over the phrase slots, `[]` / `[""]` placeholders that shift the expected position only after a
+first real slot, every alternative term × every location, `editDistance(prevPos+1, loc.Pos)` paid from the
+remaining slop with the test `remainingSlop-dist >= 0`, an occurrence never used twice), finds a path IFF
+the declarative `PhraseMatch` holds: there is a choice of one occurrence (term of the slot, a position of
+that term) per non-placeholder slot, no occurrence chosen twice, with total displacement
+`Σ |p_prev + (j - i) - p| ≤ slop` over consecutive non-placeholder slots `i < j`. For every term-location
+map with 1-based positions, every phrase (any number of slots, alternatives and placeholders), every slop. -/
+theorem findPhrasePaths_sound_complete (tlm : String → List Nat) (hpos : ∀ t p, p ∈ tlm t → 0 < p)
+    (slots : List (List String)) (slop : Nat) :
+    findPaths tlm slots 0 [] slop = true ↔ PhraseMatch tlm slots slop :=
+  findPaths_sound_complete tlm hpos slots slop
+
+/-- the meaning `sat` of a (multi-)phrase query on a document IS the declarative phrase match on the
+positions of the document's field (the document does not hold the empty string as a term) -/
+theorem phrase_sat_iff_match (d : Doc) (f : String) (slop : Nat) (pos : List (List String))
+    (hempty : d.hasTerm f "" = false) :
+    sat d (.phrase f slop pos) = true ↔ (realSlots pos 0 ≠ [] ∧ PhraseMatch (d.positions f) pos slop) := by
+  simp only [sat]
+  exact phraseSat_iff_aux d f slop pos hempty
+
+/-- non-vacuity / a test of the specification: "a b" matches at positions 1,2; "b a" needs slop 2;
+with a placeholder between, "a _ c" matches a at 1 and c at 3 -/
+example : findPaths (fun t => if t = "a" then [1] else if t = "b" then [2] else if t = "c" then [3] else [])
+    [["a"], ["b"]] 0 [] 0 = true := by decide
+example : findPaths (fun t => if t = "a" then [1] else if t = "b" then [2] else [])
+    [["b"], ["a"]] 0 [] 1 = false := by decide
+example : findPaths (fun t => if t = "a" then [1] else if t = "b" then [2] else [])
+    [["b"], ["a"]] 0 [] 2 = true := by decide
+example : findPaths (fun t => if t = "a" then [1] else if t = "c" then [3] else [])
+    [["a"], [], ["c"]] 0 [] 0 = true := by decide
+
 /-- searcher trees of ANY depth (`NodeD Λ d`, any `d`) over ANY leaf searchers that are iterators
 (`leaf_is_iter`: the abstract leaf; `postings_is_iter`: the per-segment postings iterators): every node
 related to a list `L` by `RelD` is an iterator for `L` (induction on the depth over the six composites above) -/
@@ -183,6 +217,52 @@ theorem C07_exact_seg_partial {sn : SnapLayout} (hsn : offsetsOK 0 sn = true) {i
   intro x
   rw [h1.1, h2]
   exact mem_denote
+
+/-! ## Gen: the constants and guards of /repo's CURRENT source (lean/BlugeGen/C07.lean, regenerated by
+go/extract/c07.go on every run) against the values the model uses -/
+
+/-- the slice/heap switch of `newDisjunctionSearcher`: `len(qsearchers) > DisjunctionHeapTakeover` selects
+`newDisjunctionHeapSearcher`, else `newDisjunctionSliceSearcher`, and the constant is the model's
+`heapTakeover` (`Plan.build`: `if heapTakeover < ps.length then disjH else disjS`) -/
+theorem gen_heap_switch :
+    BlugeGen.C07.disjunctionHeapTakeover = heapTakeover ∧
+    BlugeGen.C07.heapSwitch = ("len(qsearchers)", ">", "DisjunctionHeapTakeover") ∧
+    BlugeGen.C07.heapSwitchThen = "newDisjunctionHeapSearcher" ∧
+    BlugeGen.C07.heapSwitchElse = "newDisjunctionSliceSearcher" := by decide
+
+/-- no clause limit: `DisjunctionMaxClauseCount = 0` and `tooManyClauses` is
+`DisjunctionMaxClauseCount != 0 && count > DisjunctionMaxClauseCount` (the model constructs disjunctions of
+any width; a non-zero limit would turn wide multi-term expansions into errors) -/
+theorem gen_no_clause_limit :
+    BlugeGen.C07.disjunctionMaxClauseCount = 0 ∧
+    BlugeGen.C07.tooManyClausesGuard = ["DisjunctionMaxClauseCount != 0", "count > DisjunctionMaxClauseCount"] := by decide
+
+/-- the guards of the two unadorned rewrites (`Plan.rewriteNone`: more than one child, `min ≤ 1` for the
+disjunction, score "none" and no term vectors) and the `minSearcher` wrap that keeps `Min()` when `min > 0`
+(`ScoreNone.keepMin = true`) -/
+theorem gen_unadorned_guards :
+    BlugeGen.C07.disjUnadornedGuard = ["len(qsearchers) > 1", "min <= 1", "optionsDisjunctionOptimizable(options)"] ∧
+    BlugeGen.C07.optionsOptimizable = ["options.Score == optionScoringNone", "!options.IncludeTermVectors"] ∧
+    BlugeGen.C07.conjUnadornedGuard =
+      ["len(searchers) > 1", "options.Score == optionScoringNone", "!options.IncludeTermVectors"] ∧
+    BlugeGen.C07.disjUnadornedKeepsMin = true ∧
+    BlugeGen.C07.disjUnadornedKeepsMinGuard = ["rv != nil", "min > 0"] := by decide
+
+/-- the slop test of `findPhrasePaths` (`findPaths`: `prevPos == 0 || slop - dist ≥ 0`) -/
+theorem gen_phrase_slop_test :
+    BlugeGen.C07.phraseSlopTest = ["prevPos == 0", "(remainingSlop - dist) >= 0"] := by decide
+
+/-- `FilteringSearcher.Advance` re-enters the FILTERED `Next` after a rejected target (`Filt.step`) -/
+theorem gen_filter_fallback : BlugeGen.C07.filterAdvanceFallback = "f.Next(ctx)" := by decide
+
+/-- `postingsIterator.Advance`: the restart test is `currPosting != nil && currID >= number`
+(`PIter.advStart`), the restart does not close the iterator that stays in use, and
+`segmentIndexAndLocalDocNumFromGlobal` is `sort.Search(len(offsets), offsets[x] > docNum) - 1` (`segIndexOf`) -/
+theorem gen_postings_guards :
+    BlugeGen.C07.postingsRestartGuard = ["i.currPosting != nil", "i.currID >= number"] ∧
+    BlugeGen.C07.postingsRestartClosesReceiver = false ∧
+    BlugeGen.C07.segmentSearchPred = "i.offsets[x] > docNum" ∧
+    BlugeGen.C07.segmentSearchMinusOne = true := by decide
 
 /-! ## Witnesses: where the implementation (as modelled) deviates from the documented meaning
 (definitions and evaluation in BlugeProofs/C07/Witness.lean) -/
